@@ -90,6 +90,7 @@ type ctx struct {
 	seq     int
 	errSeen map[string]int
 	poison  bool
+	lastErr string
 	nPoison int
 	sigList []string
 	sigSeen map[string]bool
@@ -291,6 +292,110 @@ func (c *ctx) specialColumn() string {
 		}() + ")"
 	}
 	return "JSON_OBJECT()"
+}
+
+// rowsOf evaluates a SELECT and returns its rows as strings (nil, false on error).
+func (c *ctx) rowsOf(q string) ([]string, bool) {
+	v, err := c.pr.Query(q)
+	c.evals++
+	c.lastErr = ""
+	if err != nil || v == nil {
+		if err != nil {
+			c.lastErr = strings.SplitN(err.Error(), "\n", 2)[0]
+		}
+		return nil, false
+	}
+	out := make([]string, 0, v.RecordLen())
+	for _, rec := range v.RecordSet {
+		var cells []string
+		for _, cell := range rec {
+			cells = append(cells, cell[0].String())
+		}
+		out = append(out, strings.Join(cells, "|"))
+	}
+	return out, true
+}
+
+// cteTwice: a statement that reads one inline (WITH) table twice; the first read does a step that csvq performs
+// in place (WHERE compaction, ORDER BY, LIMIT/OFFSET, aggregation, projection in another column order, an added
+// column).  The second read must give exactly what a fresh single read gives.
+func (c *ctx) cteTwice(form int) {
+	k := 20 + c.g.Intn(100)
+	with := fmt.Sprintf("WITH it (id, grp, n, s) AS (SELECT id, grp, n, s FROM t WHERE id <= %d) ", k)
+	base := fmt.Sprintf("FROM t WHERE id <= %d", k)
+	first := c.g.Pick(
+		"SELECT COUNT(*) FROM (SELECT s FROM it WHERE n > 0) x",
+		"SELECT MAX(id) FROM (SELECT id FROM it ORDER BY n DESC, id LIMIT 5 OFFSET 2) x",
+		"SELECT MAX(n) FROM it",
+		"SELECT COUNT(*) FROM (SELECT n, id FROM it) x",
+		"SELECT COUNT(*) FROM (SELECT s, id, n * 2 AS d FROM it WHERE grp < 4 ORDER BY s DESC, id) x",
+		"SELECT COUNT(DISTINCT grp) FROM it",
+	)
+	report := func(stmt string, got, want []string, fresh string) {
+		c.o.Count("cte_twice_compared")
+		diff := ""
+		for i := 0; i < len(got) || i < len(want); i++ {
+			g, w := "<missing>", "<missing>"
+			if i < len(got) {
+				g = got[i]
+			}
+			if i < len(want) {
+				w = want[i]
+			}
+			if g != w {
+				diff = fmt.Sprintf("row %d: %s, a fresh read gives %s", i+1, g, w)
+				break
+			}
+		}
+		if diff != "" {
+			c.o.Law("reread:inline_table", map[string]string{"sql": stmt, "fresh_read": fresh, "difference": diff})
+		}
+	}
+	failed := func(stmt, fresh string) {
+		c.o.Count("cte_twice_compared")
+		c.o.Law("reread:inline_table", map[string]string{"sql": stmt, "fresh_read": fresh, "difference": "the statement fails although each read on its own succeeds: " + c.lastErr})
+	}
+	switch form % 3 {
+	case 0: // two scalar sub-queries: the first does the in-place step, the second is a fingerprint of a plain read
+		fp := "(SELECT LISTAGG(id || ':' || grp || ':' || n || ':' || s, ';') FROM it)"
+		stmt := with + "SELECT (" + first + ") AS a, " + fp + " AS b FROM DUAL"
+		fresh := with + "SELECT " + fp + " AS b FROM DUAL"
+		want, ok2 := c.rowsOf(fresh)
+		firstAlone, ok0 := c.rowsOf(with + first)
+		got, ok1 := c.rowsOf(stmt)
+		switch {
+		case ok2 && ok0 && !ok1:
+			failed(stmt, fresh)
+		case ok1 && ok2 && len(got) == 1 && len(want) == 1:
+			if i := strings.Index(got[0], "|"); i >= 0 {
+				report(stmt, []string{got[0][i+1:]}, want, fresh)
+			}
+		default:
+			c.o.Count("cte_twice_error")
+		}
+		_ = firstAlone
+	case 1: // outer query and sub-query
+		stmt := with + "SELECT id, grp, n, s FROM it WHERE n IN (SELECT n FROM it WHERE n >= 0) ORDER BY id"
+		fresh := "SELECT id, grp, n, s " + base + " AND n >= 0 ORDER BY id"
+		want, ok2 := c.rowsOf(fresh)
+		got, ok1 := c.rowsOf(stmt)
+		if ok1 && ok2 {
+			report(stmt, got, want, fresh)
+		} else if ok2 {
+			failed(stmt, fresh)
+		}
+	default: // UNION ALL of a filtering / reordering read and a plain read
+		stmt := with + "SELECT s AS v FROM it WHERE n > 0 UNION ALL SELECT id AS v FROM it UNION ALL SELECT n AS v FROM it"
+		w1, ok1 := c.rowsOf("SELECT s " + base + " AND n > 0")
+		w2, ok2 := c.rowsOf("SELECT id " + base)
+		w3, ok3 := c.rowsOf("SELECT n " + base)
+		got, ok4 := c.rowsOf(stmt)
+		if ok1 && ok2 && ok3 && ok4 {
+			report(stmt, got, append(append(w1, w2...), w3...), "the three SELECTs over the base table")
+		} else if ok1 && ok2 && ok3 {
+			failed(stmt, "the three SELECTs over the base table")
+		}
+	}
 }
 
 func (c *ctx) nt(sg string) {
@@ -831,9 +936,14 @@ func runChild(seed int64, n int, dir string, withCorpus bool) {
 			}
 		}
 	}
+	if withCorpus {
+		for f := 0; f < 9; f++ {
+			c.cteTwice(f)
+		}
+	}
 	for it := 0; it < n; it++ {
 		c.seq++
-		kind := []string{"plain", "plain", "while", "udf", "prepared", "reread_table", "reread_cursor", "reread_variable", "dtcell", "fromlist", "dml_alias", "uda_pool", "extra_column"}[it%13]
+		kind := []string{"plain", "plain", "while", "udf", "prepared", "reread_table", "reread_cursor", "reread_variable", "dtcell", "fromlist", "dml_alias", "uda_pool", "extra_column", "cte_twice"}[it%14]
 		o.Count("kind:" + kind)
 		switch kind {
 		case "plain":
@@ -990,6 +1100,9 @@ func runChild(seed int64, n int, dir string, withCorpus bool) {
 				o.Law("reread:table", map[string]string{"second": canon(again, e), "after": q1})
 			}
 			c.nt(fmt.Sprintf("extra_column/%s/%v", strings.SplitN(what, "(", 2)[0], e1 != nil))
+		case "cte_twice":
+			c.cteTwice(c.seq / 14)
+			c.nt(fmt.Sprintf("cte_twice/%d", (c.seq/14)%3))
 		case "dtcell":
 			// functions applied to datetime-typed cells and variables, twice; then the cells are read again
 			k := 1 + c.g.Intn(3)
